@@ -146,7 +146,7 @@ where
     T: serde::ser::Serialize + ?Sized,
 {
     let mut document = to_document(value)?;
-    pretty::Pretty.visit_document_mut(&mut document);
+    pretty::Pretty::default().visit_document_mut(&mut document);
     Ok(document.to_string())
 }
 
